@@ -195,6 +195,45 @@ pub fn run_c01(tier: &str) -> Report {
     rep.sink.extend(vs);
     let br = st.branches.lock().unwrap().clone();
     let hard: u64 = br.iter().filter(|(k, _)| **k > 1).map(|(_, v)| *v).sum();
+    // dense scan: a Fibonacci lattice of 8 M (quick) / 120 M (thorough) points, point i looked up at
+    // resolution 2 + (i mod 28), judged by planar containment only (the light half of the oracle). Lookups
+    // that only succeed through a late probe of the spiral occur for about one point in a few million, at
+    // no particular place; only a lattice of this density meets them.
+    {
+        let n: u64 = if tier == "quick" { 8_000_000 } else { 120_000_000 };
+        let golden = (1.0 + 5f64.sqrt()) / 2.0;
+        let chunk = 1u64 << 16;
+        let starts: Vec<u64> = (0..n).step_by(chunk as usize).collect();
+        let bad = AtomicU64::new(0);
+        let vs: Vec<Viol> = starts
+            .par_iter()
+            .flat_map(|&c0| {
+                let mut out = Vec::new();
+                for i in c0..(c0 + chunk).min(n) {
+                    let z = 1.0 - (2.0 * i as f64 + 1.0) / n as f64;
+                    let lon = ((i as f64 / golden).fract() * 360.0) - 180.0;
+                    let lat = z.asin() / rg::DEG;
+                    let res = 2 + (i % 28) as i32;
+                    let ok = match subj::lookup(lon, lat, res) {
+                        Ok(id) => rc::resolution(id) == Some(res) && contains(id, lon, lat).map(|d| d >= -BAND).unwrap_or(false),
+                        Err(_) => false,
+                    };
+                    if !ok && bad.fetch_add(1, Ordering::Relaxed) < 4 {
+                        // full oracle for the report
+                        let v = check_lookup(lon, lat, res, &st, false);
+                        if v.is_empty() {
+                            out.push(viol("C01/oracle-error", "the light and the full oracle disagree".into(), llcase(lon, lat, res)));
+                        }
+                        out.extend(v);
+                    }
+                }
+                out
+            })
+            .collect();
+        rep.sink.extend(vs);
+        rep.set("dense_scan_points", json!(n));
+        st.evals.fetch_add(n, Ordering::Relaxed);
+    }
     // call ladders: a lookup repeated after exactly g - 1 identical lookups of a far-away point on one
     // fresh thread, g around 2^8, 2^10, 2^12, 2^16 (a per-thread lookup counter that wraps, stale slots)
     {
